@@ -9,6 +9,7 @@
 3. TLC judges with spec/Trace_Settings.tla: each trial must have a linearization (silent Begin/Finish/Observe steps between
    call and ret); the limit probes (limit-1, limit, limit+1 for every decoder path) are judged per event."""
 import json
+import os
 import random
 import re
 import subprocess
@@ -51,7 +52,8 @@ def tail(out):
 
 
 def model_check(work, rep, tier):
-    models = ["mv"] if tier == "quick" else ["mv", "nn", "hc", "hn"]
+    # mq/hq: thread 3 only uses; hn (3 cells, all threads set and use, ~10^7 states, 4 min on 4 idle cores) only on request
+    models = ["mq"] if tier == "quick" else ["mv", "nn", "hc", "hq"] + (["hn"] if os.environ.get("VERIF_DEEP") else [])
     scns = set()
     for m in models:
         r = vf.tlc_mc(work, "MC_Settings.tla", f"MC_Settings_{m}.cfg", workers=4, timeout=1500, meta=f"md-{m}")
@@ -148,8 +150,10 @@ def judge_chunk(work, idx, chunk):
     guard = 0
     while rest:
         guard += 1
-        if guard > 40:
-            raise vf.ToolError("too many rejected trials in one chunk; giving up")
+        if guard > 6:
+            # enough rejected trials to report; the remainder of this chunk is left unjudged (counted)
+            out.append({"id": rest[0][0], "fail": [], "known": [], "drift": [f"unjudged-after-rejections:{len(rest)}"]})
+            break
         flat = [l for _, ls in rest for l in ls]
         r, frontier, wo = run_trace(work, flat, f"tr{idx:03d}-{guard}")
         st += r.distinct
@@ -187,6 +191,39 @@ def judge_events(work, lines, tag):
             v.setdefault("known", [])
             out.append(v)
     return "event", out, r.distinct, r.generated
+
+
+def selftest_trial(work, some_trials):
+    """alter the first recorded return value of the second trial: exactly that trial must be rejected at that line"""
+    ts = [(tid, list(ls)) for tid, ls in some_trials]
+    victim = ts[min(1, len(ts) - 1)]
+    k = next(i for i, l in enumerate(victim[1]) if '"ev":"ret"' in l)
+    e = json.loads(victim[1][k])
+    e["val"] += 7
+    victim[1][k] = json.dumps(e)
+    flat = [l for _, ls in ts for l in ls]
+    r, frontier, _ = run_trace(work, flat, "selftest-trial")
+    want = sum(len(ls) for _, ls in ts[:min(1, len(ts) - 1)]) + k + 1
+    return frontier == want, r.distinct, r.generated
+
+
+def selftest_event(work, limit_lines):
+    """an accepted probe at the limit re-labelled as rejected, and a rejected one as accepted, must both be flagged"""
+    probes = [json.loads(l) for l in limit_lines if '"ev":"probe"' in l]
+    num = lambda le: int.from_bytes(bytes(le), "little")
+    plain = [p for p in probes if p["mode"] == "setfirst" and p["isz"] == 1 and p["supplied"]]
+    a = dict(next(p for p in plain if num(p["len"]) < num(p["asked"])), id=1, out="limit")
+    b = dict(next(p for p in plain if num(p["len"]) > num(p["asked"])), id=2, out="ok")
+    c = dict(json.loads(next(l for l in limit_lines if '"ev":"setlimit"' in l)), id=3)
+    c["reported"] = [(c["reported"][0] + 1) % 256] + c["reported"][1:]
+    r, frontier, _ = run_trace(work, [json.dumps(x) for x in (a, b, c)], "selftest-event")
+    got = {}
+    for s in r.tagged("VERDICT"):
+        v = json.loads(s)
+        got[v["id"]] = set(v["fail"])
+    ok = (frontier is None and got.get(1) == {"C19:within-limit-rejected"} and got.get(2) == {"C19:over-limit-accepted"}
+          and got.get(3) == {"C19:setter-reports-wrong-value"})
+    return ok, r.distinct, r.generated
 
 
 # ------------------------------------------------------------------------------------------------
@@ -282,15 +319,32 @@ def run(prop, tier, seed, replay=None):
     if touch_lines or limit_lines:
         jobs.append(("events", 0, touch_lines + limit_lines))
 
+    # binding self-test: one recorded return value altered / one probe outcome altered must be rejected
+    if trials and not replay:
+        jobs.append(("selftest-trial", 0, trials[:3]))
+    if limit_lines and not replay:
+        jobs.append(("selftest-event", 0, limit_lines))
+
     def do(job):
         kind, idx, data = job
-        return judge_chunk(work, idx, data) if kind == "chunk" else judge_events(work, data, "events")
+        if kind == "chunk":
+            return judge_chunk(work, idx, data)
+        if kind == "events":
+            return judge_events(work, data, "events")
+        if kind == "selftest-trial":
+            return ("selftest-trial",) + selftest_trial(work, data)
+        return ("selftest-event",) + selftest_event(work, data)
 
-    trial_verdicts, event_verdicts = [], []
+    trial_verdicts, event_verdicts, selftest_failed = [], [], []
     with ThreadPoolExecutor(max_workers=4) as ex:
         for kind, out, st, tr in ex.map(do, jobs):
             rep.add_states(st, tr)
-            (trial_verdicts if kind == "trial" else event_verdicts).extend(out)
+            if kind.startswith("selftest"):
+                rep.cov[kind.replace("-", "_") + "_rejected"] = out
+                if not out:
+                    selftest_failed.append(kind)
+            else:
+                (trial_verdicts if kind == "trial" else event_verdicts).extend(out)
     vf.log(f"judged: {len(trial_verdicts)} trials rejected, {len(event_verdicts)} events not clean, t={time.time() - rep.t0:.0f}s")
 
     if trials:
@@ -349,4 +403,6 @@ def run(prop, tier, seed, replay=None):
 
     rep.classify(trial_verdicts, replay_trial)
     rep.classify(event_verdicts, replay_event)
+    if selftest_failed and not rep.violations:
+        raise vf.ToolError(f"binding self-test failed: an altered recording was accepted ({selftest_failed})")
     return rep.finish()
